@@ -993,8 +993,14 @@ func (c *CreateIndexStatement) SQL() string {
 	cols := make([]string, len(c.Columns))
 	for i, col := range c.Columns {
 		s := safeName(col.Column)
+		if col.Collate != "" {
+			s += " COLLATE " + col.Collate
+		}
 		if col.Direction != "" {
 			s += " " + col.Direction
+		}
+		if col.NullsLast {
+			s += " NULLS LAST"
 		}
 		cols[i] = s
 	}
